@@ -78,6 +78,14 @@ def t_sraise(*a, **k):
     raise ValueError('x', 1)
 
 
+def t_sclear(*a, **k):
+    # the last value assigned is a falsy one given as the first argument (None, 0, [], ...)
+    x = 7
+    CURRENT.user_state = 11
+    CURRENT.user_state = a[0] if a else None
+    return x
+
+
 def t_sbase(*a, **k):
     x = 7
     CURRENT.user_state = 11
